@@ -206,6 +206,10 @@ pub enum FaultKind {
     /// intermediate status, 1 = the first byte of a packet, 2 = a header and part of its body,
     /// 3 = an extended header announcing 300 bytes and ten of them. The connection stays open.
     StaleAfter(u8),
+    /// The frame is emitted normally; once the exchange it belongs to has completed (the terminal
+    /// is idle again) the terminal closes the connection: a clean loss between two exchanges,
+    /// which the client can only notice when it next uses the connection.
+    CloseIdle,
 }
 
 #[derive(Clone, Debug, PartialEq, Eq, Serialize, Deserialize)]
@@ -236,6 +240,11 @@ pub struct PtSpec {
     pub dead_from_conn: Option<u16>,
     #[serde(default)]
     pub dead_point: u16,
+    /// What the abort of a reservation carries besides its result code (ZVT 2.2.9): 0 nothing,
+    /// 1 the currency code, 2 currency + TLV with a one-byte extended error code (1F16),
+    /// 3 currency + TLV with a two-byte 1F16 and an error text (1F17), 4 TLV only.
+    #[serde(default)]
+    pub abort_extras: u8,
 }
 
 // ---------------------------------------------------------------- state
@@ -458,6 +467,9 @@ pub struct PtConn {
     st: St,
     point: u16,
     silent: bool,
+    close_when_idle: bool,
+    /// Closed cleanly between two exchanges: later frames go nowhere (no anomaly: the client cannot know).
+    closed_idle: bool,
 }
 
 impl PtConn {
@@ -468,6 +480,8 @@ impl PtConn {
             st: St::Idle,
             point: 0,
             silent: false,
+            close_when_idle: false,
+            closed_idle: false,
         }
     }
 
@@ -509,6 +523,11 @@ impl PtConn {
             None => {}
             Some(FaultKind::WrongSerial) if !e.identity => {}
             Some(FaultKind::IdentityAbort(_)) if !e.identity => {}
+            Some(FaultKind::CloseIdle) => {
+                io.note(format!("fault CloseIdle at c{} p{}", self.conn, point));
+                fire(&mut pt, FaultKind::CloseIdle);
+                self.close_when_idle = true;
+            }
             Some(kind) => {
                 io.note(format!("fault {:?} at c{} p{}", kind, self.conn, point));
                 match kind {
@@ -565,6 +584,15 @@ impl PtConn {
                     }
                     FaultKind::EpipeAfter => {
                         fire(&mut pt, kind);
+                        // the frame goes out as usual (with its booking / release / reversal), only
+                        // the client's answer can no longer be written
+                        if e.identity {
+                            let serial = String::from_utf8_lossy(&e.frame[3..11]).to_string();
+                            pt.identity_sent.push((self.conn, serial, seq));
+                        }
+                        let eff = e.effect.clone();
+                        drop(pt);
+                        self.apply_effect(&eff);
                         io.release_after(delay, &e.frame);
                         io.fail_writes();
                         return false;
@@ -603,6 +631,7 @@ impl PtConn {
                         io.release_after(delay, &bytes);
                         return true;
                     }
+                    FaultKind::CloseIdle => unreachable!(),
                     FaultKind::WrongSerial => {
                         fire(&mut pt, kind);
                         let mut f = e.frame.clone();
@@ -912,7 +941,30 @@ impl PtConn {
                     }
                     _ => Effect::None,
                 };
-                end(&mut out, o.end, effect);
+                match (o.end, pt.spec.abort_extras) {
+                    (EndSpec::Abort(c), form) if form > 0 => {
+                        let mut body = vec![c];
+                        if form != 4 {
+                            body.extend(rc::bcd(currency, 2));
+                        }
+                        if form >= 2 {
+                            let mut t = match form {
+                                2 => vec![0x1f, 0x16, 0x01, c],
+                                _ => vec![0x1f, 0x16, 0x02, 0x00, c],
+                            };
+                            if form >= 3 {
+                                let text = b"declined by the host";
+                                t.extend([0x1f, 0x17, text.len() as u8]);
+                                t.extend_from_slice(text);
+                            }
+                            body.push(0x06);
+                            body.push(t.len() as u8);
+                            body.extend(t);
+                        }
+                        out.push(plain(rc::apdu((0x06, 0x1e), &body)));
+                    }
+                    _ => end(&mut out, o.end, effect),
+                }
             }
             (0x06, 0x23) => {
                 let raw = pkt.get(0x87).map(|v| v.to_vec());
@@ -1092,6 +1144,11 @@ impl Terminal for PtConn {
     fn on_bytes(&mut self, io: &mut TermIo<'_>) {
         while let Some(frame) = rc::take_frame(io.inbox) {
             let cf = (frame[0], frame[1]);
+            if self.closed_idle {
+                // written into a connection the terminal closed between two exchanges: lost
+                io.note(format!("frame {} lost: the terminal had closed this connection while idle", crate::conn::hex(&frame[..frame.len().min(8)])));
+                continue;
+            }
             if matches!(self.st, St::Dead) || self.silent {
                 // still recorded: a frame on a connection that saw a failure
                 let mut pt = self.pt.lock().unwrap();
@@ -1128,6 +1185,11 @@ impl Terminal for PtConn {
                         };
                         if rest.is_empty() {
                             self.st = St::Idle;
+                            if self.close_when_idle {
+                                self.close_when_idle = false;
+                                self.closed_idle = true;
+                                io.close(CloseKind::Eof);
+                            }
                         } else {
                             self.advance(io, rest, req, completes, during, false);
                         }
